@@ -20,7 +20,7 @@ NONFLAGS = (0, 5, 7, 8, 10, 100)
 
 
 def generate(rng, tier="quick"):
-    n = rng.weighted([(0, 1), (1, 2), (2, 2), (rng.randint(3, 12), 10), (rng.randint(13, 30), 3)])
+    n = rng.weighted([(0, 1), (1, 2), (2, 2), (rng.randint(3, 12), 10), (rng.randint(13, 30), 3), (rng.randint(990, 1100), 0.25)])
     k = rng.randint(1, 6)
     vectors = []
     for _ in range(k):
@@ -248,7 +248,16 @@ def candidates(scn):
                 c["deliveries"][di]["groups"] = None
                 yield c
     n = scn["n"]
-    if n > 1:
+    if n > 16:
+        for lo, hi in ((0, n // 2), (n // 2, n)):
+            c = copy.deepcopy(scn)
+            c["n"] = n - (hi - lo)
+            for v in c["vectors"]:
+                v["values"] = v["values"][:lo] + v["values"][hi:]
+                if v.get("mask") is not None:
+                    v["mask"] = v["mask"][:lo] + v["mask"][hi:]
+            yield c
+    if 1 < n <= 64:
         for i in range(n):
             c = copy.deepcopy(scn)
             c["n"] = n - 1
